@@ -78,6 +78,13 @@ CHECKS = {
         "Trusted: affine composition and unlabelled matcher in mc/props/c09.py, circle model for Angle edges. Shear not covered (not in the property).",
         "DESIGN.md 5 C09",
     ),
+    "C11": (
+        "model_checking",
+        "exhaustive enumeration of a finite configuration space executed on the real library: every predefined shape / sketch-lofted shape / stack / joint class x rigid frames x sizes, and all chains of <=2 (thorough 3) chain/expand/contract/fill steps from either face; structural oracle on the assembled blocking written from blockMesh's hex convention",
+        "Per configuration: all corner Jacobians positive, no geometrically coincident distinct vertices, one face-connected component, no quad shared by three blocks, outer arcs on the intended circle, the documented chop calls (axial/radial/tangential or chop(0..2)) sufficient for write(), chained shapes share exactly the interface sketch's vertices.",
+        "Trusted: right-handedness test and face table in mc/blockmesh_ref.py. Canonical poses are valid input by construction; Box/Wedge/stacks only in their native frame.",
+        "DESIGN.md 5 C11",
+    ),
     "C02": (
         "model_checking",
         "stateless model checking of the implementation: choice-point explorer over set iteration orders (iterative deviation bounding) x exhaustive insertion orders / corner numberings / chop placements of small lattice assemblies, edge-family reference model",
